@@ -1,14 +1,80 @@
 (* C10 — The tree map behaves as a sorted map and stays balanced under any op sequence.
    This file holds only the property theorems; each is closed by an exact lemma and followed
-   by Print Assumptions. *)
-From Coq Require Import ZArith List Bool.
-From FV Require Import C10.Spec C10.Model C10.Proofs.
+   by Print Assumptions.
+
+   Vocabulary (definitions in Spec.v, Model.v, Proofs*.v):
+     mstep / mrun      the tree model of map.go + iterator.go: one operation / a sequence
+     sstep / srun      the reference: a strictly sorted association list with snapshot iterators
+     reach ops         the model state after the operation sequence ops from the empty map
+     bst t             search-tree order;   ssorted l   keys strictly increasing (each key once)
+     rbtree t          root black, no red node has a red child, equal black heights
+     outs_agree        results equal, pre-/post-order equal up to permutation *)
+From Coq Require Import ZArith List Bool Permutation.
+From FV Require Import C10.Spec C10.Model C10.Proofs C10.ProofsIns C10.ProofsDel C10.ProofsIter
+  C10.ProofsRefine C10.ProofsDrive C10.ProofsTop.
 Import ListNotations.
 Open Scope Z_scope.
 
-(* "The tree's height never exceeds 2*log2(n+1)".  Stated twice: with the integer (floor)
-   logarithm, which is stronger than the real-valued bound, and in the exponential form
-   2^height <= (n+1)^2, which is exactly height <= 2*log2(n+1) over the reals. *)
+(* "After any sequence of insertions, replacements, removals, clears and removals through
+   iterators, every query - lookup, size, first/last, floor, ceiling and higher neighbours, key
+   and value listings, ascending and descending iteration, traversals - agrees with a sorted
+   map holding the same associations": for EVERY operation sequence (all 31 operations of the
+   model, any keys, any length) the results of the tree model equal the results of the
+   reference sorted association list, position by position. *)
+Theorem c10_refines_sorted_map : forall ops : list op,
+  outs_agree ops (snd (mrun minit ops)) (snd (srun sinit ops)).
+Proof. exact refines. Qed.
+Print Assumptions c10_refines_sorted_map.
+
+(* "each key present once and in comparator order": the tree's in-order listing IS the
+   reference list, which is strictly sorted; the size field counts the nodes. *)
+Theorem c10_contents : forall ops : list op,
+  inorder (m_tree (reach ops)) = s_list (sreach ops) /\ ssorted (s_list (sreach ops)) /\
+  m_size (reach ops) = Z.of_nat (size (m_tree (reach ops))).
+Proof. exact reach_contents. Qed.
+Print Assumptions c10_contents.
+
+(* the reference is a map: lookups after insert / delete, and it stays sorted *)
+Theorem c10_spec_is_sorted_map : forall l, ssorted l ->
+  (forall k v, ssorted (sl_insert k v l)) /\
+  (forall k, ssorted (sl_delete k l)) /\
+  (forall k' k v, sl_lookup k' (sl_insert k v l) = if k' =? k then Some v else sl_lookup k' l) /\
+  (forall k' k, sl_lookup k' (sl_delete k l) = if k' =? k then None else sl_lookup k' l).
+Proof. exact spec_laws. Qed.
+Print Assumptions c10_spec_is_sorted_map.
+
+(* search-tree order and the red-black rules hold after every operation sequence ... *)
+Theorem c10_bst : forall ops : list op, bst (m_tree (reach ops)).
+Proof. exact reach_bst. Qed.
+Print Assumptions c10_bst.
+
+Theorem c10_rb : forall ops : list op, rbtree (m_tree (reach ops)).
+Proof. exact reach_rb. Qed.
+Print Assumptions c10_rb.
+
+(* ... and are preserved by insertion and deletion from ANY red-black search tree *)
+Theorem c10_put_remove_preserve : forall t k v, bst t /\ rbtree t ->
+  (bst (put k v t) /\ rbtree (put k v t)) /\ (bst (remove k t) /\ rbtree (remove k t)).
+Proof. exact op_preserves. Qed.
+Print Assumptions c10_put_remove_preserve.
+
+(* every query, on ANY search tree, is the query on its sorted in-order list *)
+Theorem c10_queries_any_search_tree : forall t, bst t ->
+  (forall k, lookup k t = sl_lookup k (inorder t)) /\
+  min_entry t = sl_first (inorder t) /\ max_entry t = sl_last (inorder t) /\
+  (forall k, floor k t = sl_floor k (inorder t)) /\
+  (forall k, ceiling k t = sl_ceiling k (inorder t)) /\
+  (forall k, higher k t = sl_higher k (inorder t)) /\
+  (forall k, lower k t = sl_lower k (inorder t)) /\
+  ssorted (inorder t) /\ length (inorder t) = size t /\
+  Permutation (preorder t) (inorder t) /\ Permutation (postorder t) (inorder t).
+Proof. exact queries_any_bst. Qed.
+Print Assumptions c10_queries_any_search_tree.
+
+(* "The tree's height never exceeds 2*log2(n+1)".  Stated with the integer (floor) logarithm,
+   which is stronger than the real-valued bound, and in the exponential form
+   2^height <= (n+1)^2, which is exactly height <= 2*log2(n+1) over the reals; height counts
+   the nodes on the longest root-to-leaf path. *)
 Theorem c10_height : forall t, rbtree t ->
   Z.of_nat (height t) <= 2 * Z.log2 (Z.of_nat (size t) + 1).
 Proof. exact height_log2. Qed.
@@ -18,3 +84,67 @@ Theorem c10_height_exact : forall t, rbtree t ->
   (2 ^ height t <= (size t + 1) * (size t + 1))%nat.
 Proof. exact height_pow. Qed.
 Print Assumptions c10_height_exact.
+
+(* the bound for the map after any operation sequence, n = Size() *)
+Theorem c10_height_reachable : forall ops : list op,
+  Z.of_nat (height (m_tree (reach ops))) <= 2 * Z.log2 (m_size (reach ops) + 1).
+Proof. exact reach_height. Qed.
+Print Assumptions c10_height_reachable.
+
+(* "iterating while removing through the iterator visits every entry that was present exactly
+   once in that iterator's direction": after ANY history, for each of the five iterator kinds,
+   any slot and ANY choice ds of which entries to remove (one Next per entry, followed by
+   Remove where ds says so): the Next calls return exactly the entries present at creation,
+   each once, in the iterator's direction (ascending, or descending for kinds 1 and 3), every
+   Remove succeeds, HasNext is false afterwards, the map afterwards holds exactly the entries
+   that were not chosen, and it is still a red-black search tree. *)
+Theorem c10_iter_remove : forall (ops : list op) (kind slot : Z) (ds : list bool),
+  kind_ok kind = true ->
+  let ms := reach ops in
+  length ds = length (inorder (m_tree ms)) ->
+  let es := dir_entries kind (inorder (m_tree ms)) in
+  let it := IterNew kind slot :: drive slot ds ++ [IterHasNext slot] in
+  snd (mrun ms it) = OUnit :: drive_outs kind es ds ++ [OBool false] /\
+  (forall k, lookup k (m_tree (fst (mrun ms it))) =
+             if gone k (removed es ds) then None else lookup k (m_tree ms)) /\
+  bst (m_tree (fst (mrun ms it))) /\ rbtree (m_tree (fst (mrun ms it))).
+Proof. exact reach_iter_remove. Qed.
+Print Assumptions c10_iter_remove.
+
+(* an iterator whose expected version is current only refers to entries of the map (no
+   operation of a valid iterator reaches a node that has left the tree) *)
+Theorem c10_no_undefined : forall (ops : list op) slot it,
+  m_its (reach ops) slot = Some it -> mi_exp it = m_ver (reach ops) ->
+  match mi_next it with Some k => lookup k (m_tree (reach ops)) <> None | None => True end /\
+  match mi_last it with Some k => lookup k (m_tree (reach ops)) <> None | None => True end.
+Proof. exact reach_iter_wellformed. Qed.
+Print Assumptions c10_no_undefined.
+
+(* ---- non-vacuity: the hypotheses are met by non-trivial states, and the model computes ---- *)
+Definition build7 : list op :=
+  [Put 1 10; Put 2 20; Put 3 30; Put 4 40; Put 5 50; Put 6 60; Put 7 70].
+
+(* a reachable red-black search tree of seven nodes (the shape the Go code builds for 1..7 in
+   sorted order), height 4 <= 2*log2(8) = 6 *)
+Example c10_example_tree :
+  m_tree (reach build7) =
+    T B (T B E 1 10 E) 2 20
+        (T R (T B E 3 30 E) 4 40 (T B (T R E 5 50 E) 6 60 (T R E 7 70 E))) /\
+  size (m_tree (reach build7)) = 7%nat /\ height (m_tree (reach build7)) = 4%nat.
+Proof. vm_compute. repeat split; reflexivity. Qed.
+
+(* the descending entry iterator over keys 1..7 removing the even ones (the history on which
+   the unrepaired code visited 7 6 7 5 4 5 3 2 3 1): visits 7 6 5 4 3 2 1, leaves 1 3 5 7 *)
+Example c10_example_descending_remove :
+  let ds := [false; true; false; true; false; true; false] in
+  let r := mrun (reach build7) (IterNew 1 0 :: drive 0 ds ++ [IterHasNext 0; Keys]) in
+  snd r = [OUnit; OKeys [7; 70]; OKeys [6; 60]; OUnit; OKeys [5; 50]; OKeys [4; 40]; OUnit;
+           OKeys [3; 30]; OKeys [2; 20]; OUnit; OKeys [1; 10]; OBool false; OKeys [1; 3; 5; 7]].
+Proof. vm_compute. reflexivity. Qed.
+
+(* Clear invalidates a live iterator: its Remove reports a concurrent modification and the
+   size stays 0 (the unrepaired code answered Size() = -1) *)
+Example c10_example_clear_live_iterator :
+  snd (mrun minit [Put 1 10; Put 2 20; IterNew 0 0; IterNext 0; Clear; IterRemove 0; Size]) =
+  [OVal None; OVal None; OUnit; OKeys [1; 10]; OUnit; OPanic P_ConcurrentModification; ONum 0].
+Proof. vm_compute. reflexivity. Qed.
